@@ -33,7 +33,7 @@ theorem kq_of_local' (hP : P.Valid) {T evs : List (Ev (B.Op P))} (i : B.Op P) (s
     (hq : (P.cfg i).quorum ≤ (longestUniqueSigners (s.commit ++ [m]) m.round m.root).1.length)
     (hagg : aggregateCommitMsgs (longestUniqueSigners (s.commit ++ [m]) m.round m.root).2 p.fullData = .ok agg)
     {k : Nat} (hk : T.length ≤ k) : QAbs.KQ (ctxT P hP (T ++ evs)) k agg.round agg.fullData := by
-  obtain ⟨hmok, hmr, hroot⟩ := commitOK_of_validateCommit' i m _ _ p hinv.height hv ha.1
+  obtain ⟨hmok, hmr, hroot⟩ := commitOK_of_validateCommit' i m _ _ p hinv.height hv ha.1 ha.2.1
   have hcc : ∀ x ∈ s.commit ++ [m], CommitOK P T x ∧ x.signers.Nodup := by
     intro x hx
     rcases List.mem_append.1 hx with hx | hx
@@ -100,7 +100,7 @@ theorem step_H6' (X : StepCtx' P hP T i os os' bs evs) :
       | rc s X h0 h1 h2 h3 => rw [h3] at hm; simp at hm
       | jump s X R h0 hR h1 h2 => rcases h2 with ⟨_, h3⟩ | ⟨_, h3⟩ <;> rw [h3] at hm <;> simp at hm
     obtain ⟨m, ha, hv, hh, hr⟩ := this
-    have cf := cert_facts' hP i m hv hh ha.1
+    have cf := cert_facts' hP i m hv hh ha.1 ha.2.1
     rw [hr]
     exact ⟨m.root, kq_of_cert hP cf hk⟩
 
@@ -145,7 +145,7 @@ theorem step_H7' (X : StepCtx' P hP T i os os' bs evs) :
   · exact kq_ext (X.R.H7 i' r v k hb hold)
   · obtain ⟨rfl, hcase⟩ := origin_D' X.hst (getElem?_mem' hnew)
     rcases hcase with ⟨m, ha, hv, hh, hr, hvv⟩ | ⟨s, m, p, agg, h0, ha, hacc, hv, hq, hagg, hr, hvv⟩
-    · have cf := cert_facts' hP i' m hv hh ha.1
+    · have cf := cert_facts' hP i' m hv hh ha.1 ha.2.1
       rw [hr, hvv, cf.hash]
       exact kq_of_cert hP cf (by omega)
     · rw [hr, hvv]
@@ -221,7 +221,7 @@ theorem step_H2' (X : StepCtx' P hP T i os os' bs evs) :
         p.round, hstale, ?_⟩
       exact before_of_mem (e := .P i' p.round p.root) (hpre'.propEv p hpin) hk
     · left
-      obtain ⟨hmok, hmr, hmroot⟩ := prepOK_of_valid' i' m _ _ _ hpre'.height hv ha.1
+      obtain ⟨hmok, hmr, hmroot⟩ := prepOK_of_valid' i' m _ _ _ hpre'.height hv ha.1 ha.2.1
       have hbucket : ∀ x ∈ forRound (s.prepare ++ [m]) s.round, PrepOK P T x ∧ x.round = s.round ∧ x.root = p.root := by
         intro x hx
         unfold forRound at hx
@@ -274,7 +274,7 @@ theorem step_H3' (X : StepCtx' P hP T i os os' bs evs) :
     have hfr : firstRound = 1 := rfl
     have hrne : m.round ≠ firstRound := by rw [hfr, ← hr]; omega
     obtain ⟨hrcs, hqrc⟩ := just_facts _ _ _ _ _ _ _ () hjust hrne
-    have hauth := ha.2
+    have hauth := ha.2.2
     have hrc : ∀ rc ∈ m.rcJust, (∃ sg, rc.signers = [sg] ∧ sg ∈ P.committee) ∧ rc.dataRound ≤ m.round ∧
         (0 < rc.dataRound → QAbs.PQ (ctxT P hP (T ++ evs)) k rc.dataRound rc.root ∧ rc.root = m.root) ∧
         (∀ j, P.honest j = true → opId j ∈ rc.signers → Ev.RC j m.round rc.dataRound rc.root ∈ T) := by
@@ -292,7 +292,7 @@ theorem step_H3' (X : StepCtx' P hP T i os os' bs evs) :
         have hpm : ∀ pm ∈ rc.just, pm.type = tPrepare ∧ pm.height = P.height ∧ pm.round = rc.dataRound ∧ pm.root = rc.root ∧
             pm.sigOk = true ∧ ∃ sg, pm.signers = [sg] ∧ sg ∈ P.committee := by
           intro pm hpmin
-          obtain ⟨a1, a2, a3, a4, a5, a6⟩ := validSignedPrepare_ok _ _ _ _ _ _ (hpms pm hpmin)
+          obtain ⟨a1, a2, a3, a4, a5, a6⟩ := validSignedPrepare_ok _ _ _ _ _ _ (hpms pm hpmin).2
           exact ⟨a1, by rw [a2, hsh], a3, a4, a5, a6⟩
         have hcomm : ∀ sg ∈ signersOfB rc.just, sg ∈ P.committee := by
           intro sg hsg
@@ -305,11 +305,11 @@ theorem step_H3' (X : StepCtx' P hP T i os os' bs evs) :
         intro j hj hh
         obtain ⟨pm, hpmin, hs⟩ := (mem_signersOfB _ _).1 (hm' j hj)
         obtain ⟨a1, a2, a3, a4, a5, _⟩ := hpm pm hpmin
-        have := (hb2 pm hpmin a2 a5 j hh hs).1 a1
+        have := (hb2 pm hpmin a2 (hpms pm hpmin).1 a5 j hh hs).1 a1
         rw [a3, a4] at this
         exact this
       · intro j hh hmem
-        have := (hb1 hrch V.sigOk j hh hmem).2.2 V.type
+        have := (hb1 hrch V.ident V.sigOk j hh hmem).2.2 V.type
         have e : rc.toBase.round = m.round := V.round
         rw [e] at this
         exact this
